@@ -1983,6 +1983,15 @@ func (e *CoreExtension) filterNumberFormat(value interface{}, args ...interface{
 		}
 	}
 
+	// A negative number of decimals means none, and nobody needs more than a float64 has:
+	// an enormous count (number_format(9223372036854775807)) made the formatting panic
+	if decimals < 0 {
+		decimals = 0
+	}
+	if decimals > 100 {
+		decimals = 100
+	}
+
 	// Format the number
 	format := "%." + strconv.Itoa(decimals) + "f"
 	str := fmt.Sprintf(format, num)
